@@ -30,6 +30,28 @@ Theorem C11_oracle_answers_are_certified : forall (p : Z) (M : dmatrix) (T : opt
 Proof. exact barcode_some. Qed.
 Print Assumptions C11_oracle_answers_are_certified.
 
+(* the complex of the oracle is the flag complex of the threshold graph, truncated at dimension dim_max + 1: its simplices are exactly
+   the non-empty subsequences of 0..n-1 with at most dim_max + 2 elements that are pairwise joined by an edge of length <= T ... *)
+Theorem C11_oracle_complex_is_flag_complex : forall (M : dmatrix) (T : option Z) (n dim_max : nat) (s : list nat),
+  In s (simplices M T n dim_max) <->
+  s <> [] /\ subseq s (seq 0 n) /\ (length s <= dim_max + 2)%nat /\ pairwise (edge_ok M T) s = true.
+Proof. exact simplices_spec. Qed.
+Print Assumptions C11_oracle_complex_is_flag_complex.
+
+(* ... and the filtration lists exactly these simplices, each with its diameter *)
+Theorem C11_oracle_filtration_members : forall (M : dmatrix) (T : option Z) (n dim_max : nat) (d : Z) (s : list nat),
+  In (d, s) (filtration M T n dim_max) <-> In s (simplices M T n dim_max) /\ d = diam M s.
+Proof. exact filtration_spec. Qed.
+Print Assumptions C11_oracle_filtration_members.
+
+(* the filtration value of a simplex: 0 for a vertex, else the largest dissimilarity between two of its vertices *)
+Theorem C11_oracle_diameter : forall (M : dmatrix) (s : list nat),
+  0 <= diam M s /\
+  (forall pre v post w, s = pre ++ v :: post -> In w post -> dget M v w <= diam M s) /\
+  (diam M s = 0 \/ exists pre v post w, s = pre ++ v :: post /\ In w post /\ diam M s = dget M v w).
+Proof. exact diam_spec. Qed.
+Print Assumptions C11_oracle_diameter.
+
 (* the oracle on a concrete instance: the 4-cycle with diagonals of length 2, over Z_3: three finite bars and one infinite bar in
    dimension 0, one bar [1,2) in dimension 1 *)
 Example C11_oracle_example :
